@@ -84,6 +84,20 @@ pub enum Fin {
     None,
 }
 
+/// How the final read-until-the-end loop of an end works (`EndSpec::drain` gives its buffer size).
+#[derive(Clone, Copy, Debug, Default, Serialize, Deserialize, PartialEq, Eq)]
+pub enum DrainMode {
+    /// read until EOF / error
+    #[default]
+    Plain,
+    /// peek (same buffer size) before every read, so that the end of the stream is first seen by
+    /// `peek`; the read after it must report EOF as well
+    PeekFirst,
+    /// a request of known length: read exactly the bytes the peer's writes accepted, stop once the
+    /// peer has closed its write side and everything was consumed — the FIN is never read
+    Exact,
+}
+
 #[derive(Clone, Debug, Serialize, Deserialize, PartialEq)]
 pub struct EndSpec {
     pub form: Form,
@@ -94,6 +108,8 @@ pub struct EndSpec {
     pub rops: Vec<ROp>,
     /// after `rops`: read with this buffer size until EOF / error; None = the reader stops reading
     pub drain: Option<u16>,
+    #[serde(default)]
+    pub drain_mode: DrainMode,
     /// ticks between the end of both programs and the final drop
     pub linger: u16,
     /// never drop the stream object
@@ -232,7 +248,8 @@ fn gen_end(rng: &mut Rng, small: bool, lat: u64) -> EndSpec {
         })
         .collect();
     let drain = if rng.chance(6, 7) { Some((*rng.pick(&BUFS)).max(1)) } else { None };
-    EndSpec { form, wops, fin, fin_delay, rops, drain, linger: if rng.chance(3, 4) { 0 } else { rng.range(1, 5) as u16 }, keep: rng.chance(1, 7) }
+    let drain_mode = *rng.pick(&[DrainMode::Plain, DrainMode::Plain, DrainMode::Plain, DrainMode::Plain, DrainMode::PeekFirst, DrainMode::PeekFirst, DrainMode::Exact, DrainMode::Exact]);
+    EndSpec { form, wops, fin, fin_delay, rops, drain, drain_mode, linger: if rng.chance(3, 4) { 0 } else { rng.range(1, 5) as u16 }, keep: rng.chance(1, 7) }
 }
 
 fn gen_scenario(rng: &mut Rng) -> Scenario {
@@ -317,6 +334,8 @@ struct DirSt {
     /// ... and that completed without error
     closed_ok: bool,
     writer_done: bool,
+    /// the read program ran to its end (EOF / error in the drain loop, or a deliberate stop)
+    reader_done: bool,
     eof: bool,
     reset: bool,
     fin_delivered: bool,
@@ -647,6 +666,38 @@ async fn reader(sh: Sh, c: usize, side: usize, spec: EndSpec, io: IoCell) {
             if sh.stop() {
                 return;
             }
+            if spec.drain_mode == DrainMode::Exact {
+                let done = {
+                    let st = sh.st.borrow();
+                    let d = &st[c].d[dir];
+                    d.closed_ok && d.read_off == d.accepted
+                };
+                if done {
+                    sh.log.ev(format!("{who} drain buf={b}: {reads} reads, {bytes} bytes = everything the peer wrote before closing; stops WITHOUT reading the end-of-file"));
+                    sh.log.tag("exact");
+                    sh.probe("reader_stopped_exactly_at_end_of_data");
+                    break;
+                }
+            }
+            if spec.drain_mode == DrainMode::PeekFirst {
+                match io_peek(&io, &mut buf[..b]).await {
+                    Ok(n) => match judge_bytes(&sh, c, dir, b, &buf[..n.min(4096)], true, &who) {
+                        Got::Eof => {
+                            sh.log.ev(format!("{who} drain buf={b}: peek -> 0: end-of-file first seen by peek after {bytes} bytes"));
+                            sh.log.tag("pkeof");
+                            sh.probe("eof_first_seen_by_peek");
+                        }
+                        Got::Failed => return,
+                        _ => {}
+                    },
+                    Err(e) => {
+                        sh.log.ev(format!("{who} drain buf={b}: peek -> Err {}", kind_name(e.kind())));
+                        sh.log.tag("pkerr");
+                        judge_read_err(&sh, c, dir, &e, &who);
+                        break;
+                    }
+                }
+            }
             match io_read(&io, &mut buf[..b]).await {
                 Ok(n) => {
                     reads += 1;
@@ -673,6 +724,7 @@ async fn reader(sh: Sh, c: usize, side: usize, spec: EndSpec, io: IoCell) {
         sh.log.ev(format!("{who} stops reading"));
         sh.log.tag("stop");
     }
+    sh.st.borrow_mut()[c].d[dir].reader_done = true;
 }
 
 // ------------------------------------------------------------------------------------------------
@@ -881,15 +933,25 @@ async fn run_end(sh: Sh, c: usize, side: usize, spec: EndSpec, stream: TcpStream
     }
     // final drop
     let (inb, outb) = (1 - side, side);
+    let mut only_fin_unread = false;
     let graceful = {
         let mut st = sh.st.borrow_mut();
         let seen = st[c].d[inb].eof || st[c].d[inb].reset;
-        if !seen {
+        // "a drop while no inbound data is unread" is a graceful close: the peer has closed its write
+        // side and every byte it wrote was consumed, only its FIN (queued or still in flight) is unread
+        let nothing_unread = st[c].d[inb].closed_ok && st[c].d[inb].read_off == st[c].d[inb].accepted;
+        if !seen && !nothing_unread {
             st[c].abortive = true;
         }
+        if !seen && nothing_unread {
+            only_fin_unread = true;
+        }
         st[c].d[outb].close_started = true;
-        seen
+        seen || nothing_unread
     };
+    if only_fin_unread {
+        sh.probe("dropped_with_only_the_fin_unread");
+    }
     let taken = std::mem::replace(&mut *io.borrow_mut(), Io::Gone);
     match taken {
         Io::Split(Some(r), Some(w)) if spec.form == Form::SplitReuniteAtClose => match r.reunite(w) {
@@ -898,7 +960,7 @@ async fn run_end(sh: Sh, c: usize, side: usize, spec: EndSpec, stream: TcpStream
         },
         other => drop(other),
     }
-    sh.log.ev(format!("{who} dropped its stream ({})", if graceful { "inbound direction already at EOF" } else { "BEFORE inbound EOF" }));
+    sh.log.ev(format!("{who} dropped its stream ({})", if only_fin_unread { "every inbound byte consumed, only the peer's FIN unread" } else if graceful { "inbound direction already at EOF" } else { "BEFORE inbound EOF, inbound data may be unread" }));
     sh.log.tag(if graceful { "drop" } else { "drop!" });
     {
         let mut st = sh.st.borrow_mut();
@@ -1218,14 +1280,18 @@ fn execute(sc: &Scenario, keep: bool) -> (Report, RunInfo) {
                     ));
                     break 'outer;
                 }
-                if ds.closed_ok && !ds.eof {
+                if r.drain_mode == DrainMode::Exact && !ds.eof {
+                    continue; // this reader deliberately never reads the end-of-file
+                }
+                if ds.closed_ok && (!ds.eof || !ds.reader_done) {
                     violation = Some(Violation::new(
                         "NoEof",
                         format!(
-                            "[c={c} d={d}] conn {c} {name}: the writer closed its write side gracefully after {} bytes in {} segments, the reader read all {} bytes and keeps reading but never observes end-of-file (tcp_capacity {}, fin_found_queue_full={:?})",
+                            "[c={c} d={d}] conn {c} {name}: the writer closed its write side gracefully after {} bytes in {} segments, the reader read all {} bytes and keeps reading but {} (tcp_capacity {}, fin_found_queue_full={:?})",
                             ds.accepted,
                             ds.seg_ends.len(),
                             ds.read_off,
+                            if ds.eof { "after end-of-file was reported once (by a peek) its next read / peek waits for ever instead of reporting end-of-file again" } else { "never observes end-of-file" },
                             tcp_cap,
                             ds.fin_found_full
                         ),
@@ -1315,6 +1381,9 @@ fn shrink_end(e: &EndSpec) -> Vec<EndSpec> {
     }
     if !e.keep {
         out.push(EndSpec { keep: true, ..e.clone() });
+    }
+    if e.drain_mode != DrainMode::Plain {
+        out.push(EndSpec { drain_mode: DrainMode::Plain, ..e.clone() });
     }
     if let Some(b) = e.drain {
         if b != 4096 {
@@ -1494,13 +1563,13 @@ impl Property for C02 {
                     c.c.fin,
                     if c.c.keep { " keep" } else { "" },
                     c.c.rops.len(),
-                    if c.c.drain.is_some() { "drain" } else { "stop" },
+                    if c.c.drain.is_some() { match c.c.drain_mode { DrainMode::Plain => "drain", DrainMode::PeekFirst => "peekdrain", DrainMode::Exact => "exact" } } else { "stop" },
                     c.s.form,
                     c.s.segs(),
                     c.s.fin,
                     if c.s.keep { " keep" } else { "" },
                     c.s.rops.len(),
-                    if c.s.drain.is_some() { "drain" } else { "stop" }
+                    if c.s.drain.is_some() { match c.s.drain_mode { DrainMode::Plain => "drain", DrainMode::PeekFirst => "peekdrain", DrainMode::Exact => "exact" } } else { "stop" }
                 )
             })
             .collect();
@@ -1536,7 +1605,7 @@ mod tests {
     use super::*;
 
     fn end(wlens: &[u16], fin: Fin, rops: Vec<ROp>, drain: Option<u16>) -> EndSpec {
-        EndSpec { form: Form::Plain, wops: wlens.iter().map(|l| WOp::Write { len: *l, how: WHow::Write }).collect(), fin, fin_delay: 0, rops, drain, linger: 0, keep: false }
+        EndSpec { form: Form::Plain, wops: wlens.iter().map(|l| WOp::Write { len: *l, how: WHow::Write }).collect(), fin, fin_delay: 0, rops, drain, drain_mode: DrainMode::Plain, linger: 0, keep: false }
     }
 
     fn base(cap: usize, c: EndSpec, s: EndSpec) -> Scenario {
